@@ -2,7 +2,7 @@
 C20 - Results do not depend on what the process did before.
 
 Explicit-state exploration over REAL process histories.  A state is a live interpreter; a transition executes one
-library operation on its own design (16-operation alphabet: designs of the probe's scale, 1000x larger and 1000x
+library operation on its own design (17-operation alphabet: designs of the probe's scale, 1000x larger and 1000x
 smaller, accepted and rejected inputs, every tool that keeps module-level state).  Every history up to the depth bound
 is executed in a freshly forked interpreter; in the reached state one forked child per probe runs the probed operation
 and reports a canonical digest of its observable result; the same probes forked from the pristine interpreter give the
@@ -25,15 +25,15 @@ PRELOAD = ['frame.geometry.geometry', 'frame.netlist.netlist', 'frame.die.die', 
            'tools.legalfloor.legalfloor', 'tools.force.fruchterman_reingold', 'tools.spectral.spectral',
            'tools.floorset_parser.floor_set_manager.strop', 'tools.floorset_parser.floor_set_manager.utils.utils',
            'tools.glbfloor.optimization', 'tools.netgen.netgen', 'numpy']
-RULE = ("all operation sequences of length <= 2 (quick) / <= 3 (thorough) over a 16-operation alphabet, each executed in a fresh interpreter forked from a pristine "
-        "(imports only) process; after each history every one of 14 probes is run in its own forked child and its canonical digest compared with the digest of the "
+RULE = ("all operation sequences of length <= 2 (quick) / <= 3 (thorough) over a 17-operation alphabet, each executed in a fresh interpreter forked from a pristine "
+        "(imports only) process; after each history every one of 13 probes is run in its own forked child and its canonical digest compared with the digest of the "
         "same probe forked from the pristine interpreter. states = distinct fingerprints of module-level mutable state reached; transitions = operations executed; "
         "traces validated = (history, probe) pairs compared.")
 ASSUMPTIONS = ["history designs are within a factor of 1000 of the probed design's scale (the statement's own bound)",
                "digests compare observable results: verdicts, regions/cells/roles rounded to 1e-9 of the design scale, projected model sets of encodings (auxiliary variable "
                "names are history-dependent by design), equation verdict vectors",
                "a probe that raises is digested as its exception type (so 'raises after a history but not alone' is a difference)"]
-BOUNDS = {'quick': 'depth 2: 1 + 16 + 256 histories x 14 probes', 'thorough': 'depth 3: 4369 histories x 14 probes'}
+BOUNDS = {'quick': 'depth 2: 1 + 17 + 289 histories x 13 probes', 'thorough': 'depth 3: 5220 histories x 13 probes'}
 MC_NOTE = ("the explored object is the real interpreter process; no model is involved: every history is executed, every probe runs on the state it reached")
 TECHNIQUE = "explicit-state exploration of real process histories (fork per history and per probe), invariant: probe digest equals the fresh-interpreter digest"
 
@@ -210,6 +210,49 @@ def op_glb(variant=1):
             pass
 
 
+def _floorset(variant):
+    from mc.props import c19
+    from tools.floorset_parser.floor_set_manager.manager import FloorSetInstance
+    case = dict(blocks=[['L', 0, 0], ['rect', 1, 0], ['T', 0, 1]][:2 + (variant % 2)], pins=[[0, 2], [12, 0], [6, 4]],
+                b2b=[(0, 1, 0.5 * variant)], p2b=[(0, 0, 2), (1, 1, 0), (2, 0, 1.5)], density=(0.5 if variant == 1 else None),
+                tam=(variant == 2), cw=False, step=1.0)
+    inst = FloorSetInstance(c19.floorset_instance(case), case['density'], case['tam'])
+    return inst.write_yaml_FPEF() + inst.write_yaml_DIEF() + inst.write_yaml_FPEF()
+
+
+def _netgen(kind, size, die=None):
+    import tempfile
+    import tools.netgen.netgen as netgen
+    d = tempfile.mkdtemp(prefix='c20.')
+    p = os.path.join(d, 'n.yaml')
+    args = ['-o', p, '--type', kind, '--size'] + [str(x) for x in size]
+    if die:
+        args += ['--add-centers', '--die', die]
+    with quiet():
+        netgen.main('netgen', args)
+    txt = open(p).read()
+    os.unlink(p)
+    os.rmdir(d)
+    return txt
+
+
+def _rectio(variant):
+    import tools.rect.rect_io as rio
+    n = op_netlist(1.0, variant)
+    return rio.solution_to_netlist(n, {'M0': [(1.0, 1.0, 2.0, 2.0)], 'M2': [(0.15, 0.35, 0.3, 0.1), (0.15, 0.45, 0.1 * variant, 0.1)]})
+
+
+def op_misc(variant=1):
+    import tools.rect.pseudobool as pb
+    from tools.floorset_parser.floor_set_manager.strop import Strop
+    q = pb.Ineq()
+    e = pb.Expr() + pb.Literal('a') * (2 + variant) + 3
+    pb.Ineq(e, pb.Expr() + 1, '<=')
+    s1 = Strop('11\n01')
+    s1.get_width.append(99)          # a caller modifying what an accessor returned
+    return q.tostr(), _floorset(variant), _netgen('grid', [2, 2 + variant], '4x4'), _netgen('htree', [2]), _rectio(variant)
+
+
 OPS = {
     'netlist': lambda: op_netlist(1.0, 1),
     'netlist_x1000': lambda: op_netlist(1000.0, 1),
@@ -227,6 +270,7 @@ OPS = {
     'force_spectral': lambda: (op_force(1), op_spectral(1)),
     'rect': lambda: op_rect(1),
     'glbfloor': lambda: op_glb(1),
+    'misc_writers': lambda: op_misc(1),
 }
 
 
@@ -416,10 +460,19 @@ def probe_rect():
     return [list(r[0]), [list(x) for x in r[1]]]
 
 
+def probe_writers():
+    import tools.rect.pseudobool as pb
+    from tools.floorset_parser.floor_set_manager.strop import Strop
+    q = pb.Ineq()
+    s1 = Strop('11\n01')
+    return [q.tostr(), (pb.Literal('a') * 2 + pb.Literal('b') >= 2).tostr(), s1.get_width, _floorset(2), _floorset(3),
+            _netgen('grid', [2, 3], '4x4'), _netgen('ring-star', [5]), _netgen('htree', [2]), _rectio(3)]
+
+
 PROBES = {
     'netlist': probe_netlist, 'netlist_dec': probe_netlist_dec, 'bad_netlists': probe_bad_netlists, 'die': probe_die,
     'bad_dies': probe_bad_dies, 'alloc': probe_alloc, 'initial_alloc': probe_initial_alloc, 'pb': probe_pb, 'legal': probe_legal,
-    'strop': probe_strop, 'force_spectral': probe_force_spectral, 'rect': probe_rect,
+    'strop': probe_strop, 'force_spectral': probe_force_spectral, 'rect': probe_rect, 'writers': probe_writers,
 }
 
 
